@@ -36,6 +36,29 @@ impl Op {
     }
 }
 
+thread_local! {
+    static RT: tokio::runtime::Runtime = tokio::runtime::Builder::new_current_thread().build().expect("runtime");
+}
+/// Installs `ts` as the runtime-wide time source of this thread's runtime and enters the runtime;
+/// with `rejected_second` a second install (another clock) is attempted and must panic without
+/// replacing the first.
+fn runtime_route(ts: TimeSource, rejected_second: bool) -> (tokio::runtime::EnterGuard<'static>, metrique_timesource::tokio::RuntimeTimeSourceGuard) {
+    RT.with(|rt| {
+        // the runtime lives as long as the thread: extend the borrow for the guards
+        let rt: &'static tokio::runtime::Runtime = unsafe { &*(rt as *const tokio::runtime::Runtime) };
+        let enter = rt.enter();
+        let g = metrique_timesource::tokio::set_time_source_for_runtime(rt.handle(), ts);
+        if rejected_second {
+            let decoy = ManuallyAdvancedTimeSource::at_time(UNIX_EPOCH + Duration::from_secs(77_000_000));
+            let r = std::panic::catch_unwind(std::panic::AssertUnwindSafe(|| {
+                metrique_timesource::tokio::set_time_source_for_runtime(rt.handle(), TimeSource::custom(decoy))
+            }));
+            assert!(r.is_err(), "a second runtime time source must be refused");
+        }
+        (enter, g)
+    })
+}
+
 #[derive(Clone, Copy, PartialEq, Eq, Debug)]
 pub enum Inject {
     /// `Timer::start_now_with_timesource(ts)`
@@ -47,8 +70,12 @@ pub enum Inject {
     /// `set_time_source(ts)` kept; before the timer is created an inner override with another
     /// clock begins and ends (the outer one must be in force again)
     ThreadLocalNested,
+    /// runtime-wide time source of the entered tokio runtime, kept
+    RuntimeHeld,
+    /// the same after a second install on that runtime was refused (it panics)
+    RuntimeAfterRejectedInstall,
 }
-const INJECTS: [Inject; 4] = [Inject::Explicit, Inject::ThreadLocalHeld, Inject::ThreadLocalDropped, Inject::ThreadLocalNested];
+const INJECTS: [Inject; 6] = [Inject::Explicit, Inject::ThreadLocalHeld, Inject::ThreadLocalDropped, Inject::ThreadLocalNested, Inject::RuntimeHeld, Inject::RuntimeAfterRejectedInstall];
 impl Inject {
     fn name(self) -> &'static str {
         match self {
@@ -56,6 +83,8 @@ impl Inject {
             Inject::ThreadLocalHeld => "thread-local-held:start_now",
             Inject::ThreadLocalDropped => "thread-local-dropped:default",
             Inject::ThreadLocalNested => "thread-local-outer-after-inner-override-ended:start_now",
+            Inject::RuntimeHeld => "tokio-runtime-wide:start_now",
+            Inject::RuntimeAfterRejectedInstall => "tokio-runtime-wide-after-refused-second-install:start_now",
         }
     }
     fn parse(s: &str) -> Option<Inject> {
@@ -86,7 +115,12 @@ fn exec(history: &[Op], inj: Inject, recs: &mut Vec<(usize, Rec)>) {
     let clock = ManuallyAdvancedTimeSource::at_time(wall);
     let ts = TimeSource::custom(clock.clone());
     let mut tl_guard = None;
+    let mut rt_guards = None;
     let mut timer = match inj {
+        Inject::RuntimeHeld | Inject::RuntimeAfterRejectedInstall => {
+            rt_guards = Some(runtime_route(ts, inj == Inject::RuntimeAfterRejectedInstall));
+            Timer::start_now()
+        }
         Inject::Explicit => Timer::start_now_with_timesource(ts),
         Inject::ThreadLocalHeld => {
             tl_guard = Some(set_time_source(ts));
